@@ -5,7 +5,7 @@ package main
 // One generated input (keys, values, encoder, query set) is built in all eight
 // (InnerPrefix, LeafPrefix, Complete) combinations, for DedupValue off and on:
 // sixteen tries per input.  Every trie is one case of the correspondence (node
-// view + lookups against the extracted model, driver TrieX/trie).  The oracle
+// view + lookups against the extracted model, driver MiscX mode trie).  The oracle
 // is written from the property text and a plain reference (the list of
 // retained keys):
 //   (a) for every ordered pair of modes with equal DedupValue where the richer
